@@ -222,9 +222,9 @@ impl SeqSpec for Seq {
     }
 }
 
-pub fn durations(q: bool) -> Vec<i128> {
+pub fn durations(w: i128) -> Vec<i128> {
     let years20k = 200 * NPC;
-    lattice::dl(if q { 2 } else { 8 }, !q).into_iter().filter(|v| v.abs() <= years20k).collect()
+    lattice::dl(w, true).into_iter().filter(|v| v.abs() <= years20k).collect()
 }
 
 pub fn run(rep: &mut Report) {
@@ -232,11 +232,15 @@ pub fn run(rep: &mut Report) {
     let leap = LeapTable::load().expect("leap").0;
     rep.rule = "epoch lattice EL(scale) x duration lattice (|d| <= 20 000 years) for all nine scales under + - += -=; EL x 9 units for the Unit forms; exact-integer float seconds; the three identities on the same product; all 81 scale pairs for Epoch - Epoch on a sub-lattice incl. every leap-second entry; stateright BFS over +-d sequences from each scale's zero. Oracle: count arithmetic on i128; traces that hit a bound are don't-cares. Non-trivial = crosses a century boundary or the scale's zero.".into();
     rep.assumptions = vec!["cross-scale differences are judged relationally against the real to_time_scale (owned by C05-C07) for all pairs and additionally against the exact model for the uniform scales and UTC".into()];
-    let ds = durations(q);
+    // thorough: dense windows of +-256 ns (durations) and +-192 ns (epochs) round every anchor of both lattices instead of +-8, cross-scale pairs at
+    // index offsets -8..8, operation sequences one step deeper
+    let deep = !rep.quick();
+    let (wd, we): (i128, i128) = if deep { (256, 192) } else { (8, 8) };
+    let ds = durations(wd);
     rep.bound("durations", ds.len() as u64);
     let nd = ds.len() as u64;
     for ts in SCALES {
-        let el = lattice::el(ts, if q { 2 } else { 8 }, None);
+        let el = lattice::el(ts, we, None);
         let ne = el.len() as u64;
         for form in 0..4 {
             sweep(rep, &format!("c04.{}[{}]", FORMS[form], scale_name(ts)), ne * nd, |i, out| {
@@ -268,15 +272,16 @@ pub fn run(rep: &mut Report) {
             // pair every left instant with the right instants at the same index offsets -2..2 (nearby instants) and a fixed far one
             let n = l.len() as u64;
             let m = r.len() as u64;
-            sweep(rep, &format!("c04.cross[{}-{}]", scale_name(*lt), scale_name(*rt)), n * 6, |i, out| {
-                let a = (i / 6) as usize;
-                let off = (i % 6) as i64 - 2;
-                let b = if off == 3 { (a * 7 + 3) % m as usize } else { ((a as i64 * m as i64 / n as i64) + off).clamp(0, m as i64 - 1) as usize };
+            let span: u64 = if deep { 18 } else { 6 };
+            sweep(rep, &format!("c04.cross[{}-{}]", scale_name(*lt), scale_name(*rt)), n * span, |i, out| {
+                let a = (i / span) as usize;
+                let off = (i % span) as i64 - (span as i64 - 2) / 2;
+                let b = if off == span as i64 / 2 { (a * 7 + 3) % m as usize } else { ((a as i64 * m as i64 / n as i64) + off).clamp(0, m as i64 - 1) as usize };
                 j_cross(*lt, l[a], *rt, r[b], &leap, out)
             });
         }
     }
-    let depth = if q { 3 } else { 4 };
+    let depth = if deep { 5 } else { 4 };
     rep.bound("seq_depth", depth as u64);
     for ts in SCALES {
         let spec = Seq { ts, ds: vec![1, NS_S, NS_DAY, NPC - 1, NPC, NPC + 1, 37 * NS_S, 7 * NS_DAY + 1], inits: vec![0, -1, 3_692_217_600 * NS_S, -NPC], depth };
